@@ -102,7 +102,9 @@ Proof.
     destruct (eval_expr _ er) as [R|]; [|discriminate].
     split_andb. exists A, V, R.
     do 3 (split; [reflexivity|]).
-    split; [now apply Z.leb_le|]. split; [now apply Z.eqb_eq|]. split; [now apply Z.leb_le|].
+    split; [now apply Z.leb_le|]. split; [now apply Z.eqb_eq|].
+    split; [match goal with H : (_ =? 0) || _ = true |- _ =>
+              apply orb_true_iff in H; destruct H as [H|H]; [left; now apply Z.eqb_eq|right; now apply Z.leb_le] end|].
     split; [split; [now apply Z.leb_le | now apply Z.ltb_lt]|]. split; [now apply Z.leb_le|].
     now apply wflip_okb_sound.
   - (* pad *) exact I.
@@ -346,7 +348,7 @@ Definition wflip_chain_ok (ww : N) (img : image) (L : list placed) (lbls : label
     let env := env_at lbls (pl_next p) in
     exists A V R cs,
       eval_expr env ea = Some A /\ eval_expr env ev = Some V /\ eval_expr env er = Some R
-      /\ (0 <= a /\ a mod wz ww = 0 /\ 0 <= A /\ 0 <= V < 2 ^ wz ww /\ 0 <= R)%Z
+      /\ (0 <= a /\ a mod wz ww = 0 /\ (V = 0 \/ 0 <= A) /\ 0 <= V < 2 ^ wz ww /\ 0 <= R)%Z
       /\ cs <> [] /\ next_of cs (Z.to_N R) = Z.to_N a
       /\ chain_in ww (i_segs img) (i_mem img) cs (Z.to_N R)
       /\ map snd cs = flip_bits ww (Z.to_N A) (Z.to_N V)
